@@ -6,6 +6,7 @@ for d in seeded/*/; do
   id=$(basename $d); prop=$(python3 -c "import json;print(json.load(open('$d/meta.json'))['property'])")
   st=$(python3 -c "import json;print(json.load(open('$d/meta.json')).get('status','expected-detected'))")
   out=$(tools/run_against.sh $d/patch.diff $prop ${1:-quick}); rc=$(echo "$out" | grep -o 'exit=[0-9]*')
+  nviol=$(echo "$out" | grep -o 'violations=[0-9]*' | head -1)
   classes=$(echo "$out" | grep -E '^violation' | sed -E 's/^violation oracle=([A-Z]) class=([^ ]*) .*/\1:\2/' | tr '\n' ' ')
-  echo "$id $prop $st $rc $classes"
+  echo "$id $prop $st $rc $nviol $classes"
 done
